@@ -405,7 +405,7 @@ func (k *Kernel) newSock(typ int) *Sock {
 func (k *Kernel) ephemeral(netw string) *Addr {
 	k.nextPort++
 	if netw == "unix" {
-		return &Addr{Net: "unix", Name: ""}
+		return &Addr{Net: "unix", Name: fmt.Sprintf("@sim-%d", k.nextPort)}
 	}
 	return &Addr{Net: netw, IP: [4]byte{127, 0, 0, 1}, Port: k.nextPort}
 }
@@ -711,7 +711,7 @@ func (s *Sock) send(b []byte, allowShort bool) (int, std.Errno) {
 	data := append([]byte(nil), b[:n]...)
 	s.BytesIn += int64(n)
 	simrt.NoteProgress()
-	if k.P.InstantNet || k.Fair && len(p.inflight) == 0 {
+	if (k.P.InstantNet || k.Fair) && len(p.inflight) == 0 {
 		p.rq = append(p.rq, data...)
 		k.wake(p, "data")
 	} else {
@@ -752,9 +752,17 @@ func (s *Sock) recv(buf []byte, allowFaults bool) (int, std.Errno) {
 	if n > len(s.rq) {
 		n = len(s.rq)
 	}
-	if allowFaults && n > 1 && k.chance(k.P.ShortRead) {
+	if allowFaults && n > 1 && !s.finRcvd && !s.rst && k.chance(k.P.ShortRead) {
+		// A short read on Linux means the receive queue was exhausted (epoll(7) says
+		// so explicitly), so a short read is modelled as "the rest had not arrived
+		// yet": the remainder goes back in flight and raises a new readiness edge
+		// when it arrives.
 		n = 1 + simrt.Intn(n-1)
+		rest := append([]byte(nil), s.rq[n:]...)
+		s.rq = s.rq[:n]
+		s.inflight = append([]segment{{data: rest}}, s.inflight...)
 		k.stat("read_short")
+		k.kick()
 	}
 	simrt.NoteProgress()
 	copy(buf, s.rq[:n])
@@ -800,7 +808,7 @@ func (s *Sock) sendFin() {
 	if p == nil || p.closed {
 		return
 	}
-	if s.k.P.InstantNet || s.k.Fair && len(p.inflight) == 0 {
+	if (s.k.P.InstantNet || s.k.Fair) && len(p.inflight) == 0 {
 		p.finRcvd = true
 		s.k.wake(p, "fin")
 	} else {
